@@ -1,4 +1,4 @@
 CONSTANTS Shape = "small" MaxEdits = 2 Budget = 0 LinkRepaired = TRUE
 SPECIFICATION Spec
-INVARIANTS InvC08Survives InvC08Reported InvC08Outside InvShape
+INVARIANTS InvC08Survives InvC08Reported InvC08Outside InvC03 InvShape
 CHECK_DEADLOCK TRUE
